@@ -929,7 +929,8 @@ def c09_followup(cases, recs):
 
 
 PROPS["C09"] = {
-    "theorems": ["visit_identity", "visitKids_identity", "kindHook_identity", "exprHook_jsxfree", "C09_module_identity", "kindHook_identity_rt", "visit_identity_rt", "visitKids_identity_rt", "collectTypes_frame", "C09_module_identity_all_options"],
+    "extra_modules": ["VueJsx.Props.C09b"],
+    "theorems": ["visit_identity", "visitKids_identity", "kindHook_identity", "exprHook_jsxfree", "C09_module_identity", "kindHook_identity_rt", "visit_identity_rt", "visitKids_identity_rt", "collectTypes_frame", "C09_module_identity_all_options", "JsxFree_of_NoJsx", "C09_idempotent"],
     "cases": c09_cases,
     "followup": c09_followup,
     "followup_clause": "not-idempotent",
